@@ -49,7 +49,10 @@ func VerifH22Completions() {
 		if !taken && len(j.result) > 0 {
 			received = <-j.result
 			taken = true
-			_ = c.completeCurrentJob(received)
+			// handleNodeAction: an error here is returned to listenForJoins,
+			// which then does not put the cluster back to NORMAL
+			cerr := c.completeCurrentJob(received)
+			verifAssert(cerr == nil, "the coordinator completes the job it waited for (cluster leaves RESIZING)")
 			j.result <- "receiver gone" // nobody will ever receive again
 		}
 	}
